@@ -41,6 +41,8 @@ EXPLANATION = (
     'quote characters or leading braces; fixed-point of parse∘serialise∘parse as a whole.')
 EXPLANATION_ADDED = (" (R1 also) sky coordinates are transformed, on the frame object, to an instance of the frame written on the frame line (decided for a frame name that is given); regular polygons reach the per-region serialiser as polygons (decided on the object handed over). (R10) visual metadata: the reader's metadata pipeline (lexer, raw validation, split, translation, RegionMeta/RegionVisual construction), the writer's translation back and the reader's pipeline again are partially evaluated on eleven probe metadata strings; the second parse must give the first parse's meta and visual.")
 EXPLANATION += EXPLANATION_ADDED
+EXPLANATION_ADDED2 = (" (R11) write -> parse of programmatic metadata: the writer's metadata translation, partially evaluated on probe dictionaries a program would build (tag given as a string or a list, label, solid/dashed line style, line width, font name/size/weight, marker size), is lexed by the reader's pipeline back to the same meta/visual entries. (R9b, deep tier) the list-level serialiser and the reader's list-level state are evaluated on every list of one to three records over three frames and six metadata dictionaries (6174 lists): each record must come back with its own frame and effective metadata.")
+EXPLANATION += EXPLANATION_ADDED2
 TRUSTED = ['str.format / f-string semantics', 'SkyCoord.to_string yields "lon lat"', 'Quantity.to_string(unit="deg")',
            're.split on whitespace/commas yields the written tokens in order']
 ASSUMPTIONS = ['the lexers are functions of their token only (their constants are C10.R3)']
